@@ -823,6 +823,7 @@ func main() {
 	wg.Add(1)
 	go func() { defer wg.Done(); hookLane.hookPanics() }()
 	wg.Wait()
+	hookLane.hangupBursts()
 	run.Logf("singles done")
 
 	// (b) batches on lane 0 (its counters continue from the singles)
@@ -860,6 +861,7 @@ func main() {
 		l.px.Stop()
 	}
 	run.Require("single_conn_hook_panicked", 8)
+	run.Require("hangup_burst_rounds", 4)
 
 	run.Require("single_conn_h2", 15)
 	run.Require("single_conn_h1", 15)
